@@ -29,7 +29,11 @@ type reqSpec struct {
 	// EndMode: 0 END_STREAM on HEADERS; 1 on the last DATA; 2 on an extra empty DATA; 3 on trailers
 	EndMode       int
 	TrailerSplits []int
-	Resp          *rt.RespPlan
+	// SizeUpdates are dynamic table size updates placed at the start of the header block (RFC 7541 4.2, 6.3); CutAtUpdate
+	// adds a fragment boundary right behind them (1), or one byte into the field that follows (2)
+	SizeUpdates []uint32
+	CutAtUpdate int
+	Resp        *rt.RespPlan
 	Traits        []string // structural traits for the shape hash / non-triviality
 }
 
@@ -77,6 +81,7 @@ type genOpts struct {
 	RespStream   bool // allow streamed responses
 	MaxRespBody  int
 	AllowStream2 bool // streamed with unknown length
+	SizeUpdates  bool // header blocks may start with dynamic table size updates (within the 4096 the server advertises)
 }
 
 // genRequest produces a well-formed request with random encoding/fragmentation choices.
@@ -181,6 +186,11 @@ func genRequest(rng *rand.Rand, conn string, n int, g genOpts) *reqSpec {
 	}
 	for i := rng.Intn(4); i > 0; i-- {
 		s.SplitSeed = append(s.SplitSeed, rng.Intn(1<<20))
+	}
+	if g.SizeUpdates && rng.Intn(4) == 0 {
+		s.SizeUpdates = [][]uint32{{4096}, {0, 4096}, {0}, {100}, {1000, 4096}, {2000}, {0, 0, 4096}}[rng.Intn(7)]
+		s.CutAtUpdate = rng.Intn(3)
+		s.Traits = append(s.Traits, fmt.Sprintf("table-size-updates%d/cut%d", len(s.SizeUpdates), s.CutAtUpdate))
 	}
 	if len(s.SplitSeed) > 0 {
 		s.Traits = append(s.Traits, fmt.Sprintf("split%d", len(s.SplitSeed)))
@@ -310,8 +320,17 @@ func splitsFor(seeds []int, n int) []int {
 // headerBytes encodes and frames the request header block with the peer's encoder (call in wire order).
 func (s *reqSpec) headerBytes(p *rt.Peer) []byte {
 	fields := append(append([]F{}, s.Pseudo...), s.Fields...)
-	blk := p.EncodeBlock(fields, s.Choices)
-	return rt.Concat(rt.HeaderFrames(s.Stream, blk, splitsFor(s.SplitSeed, len(blk)), s.PadLen, s.Prio, s.EndMode == 0))
+	var upd []byte
+	for _, n := range s.SizeUpdates {
+		upd = p.Enc.SizeUpdate(upd, n)
+	}
+	blk := append(upd, p.EncodeBlock(fields, s.Choices)...)
+	splits := splitsFor(s.SplitSeed, len(blk))
+	if len(upd) > 0 && s.CutAtUpdate > 0 {
+		splits = append(splits, len(upd)+s.CutAtUpdate-1)
+		sort.Ints(splits)
+	}
+	return rt.Concat(rt.HeaderFrames(s.Stream, blk, splits, s.PadLen, s.Prio, s.EndMode == 0))
 }
 
 func (s *reqSpec) trailerBytes(p *rt.Peer) []byte {
